@@ -1095,6 +1095,85 @@ class Analysis:
                         new.add(g.fact)
         return frozenset(new)
 
+    def _counting_loop_facts(self, hb):
+        """`for (i = c0; i < N; i += s)` with constants: inside the body i is one of c0, c0 + g, c0 + 2g, .. below N (g the
+        greatest common divisor of the steps), so c0 <= i <= the largest of those.  Only for a local integer whose
+        address is never taken, whose every write inside the loop adds a positive constant, and which every way into
+        the loop sets to the constant c0 last."""
+        memo = getattr(self, "_clf", None)
+        if memo is None:
+            memo = self._clf = {}
+        if hb.id in memo:
+            return memo[hb.id]
+        memo[hb.id] = []
+        f = self.f
+        c = sk(hb.term["cond"]) if hb.term and hb.term.get("cond") is not None else None
+        if c is None or c.get("k") != "Bin" or c["op"] not in ("<", "<="):
+            return []
+        v, lim = sk(c["a"][0]), cval(sk(c["a"][1]))
+        from .sym import _conv_signed
+        if v.get("k") != "Ref" or v["ref"].get("rk") != "local" or (v.get("t") or {}).get("k") != "int" or lim is None \
+                or _conv_signed(c["a"][0]):
+            return []
+        name, vid = v["ref"]["name"], v["ref"]["id"]
+        from . import fieldinv
+        body = fieldinv._loops(f).get(hb.id)
+        if body is None:
+            return []
+        import math
+        g = 0
+        for bid, b in f.blocks.items():
+            for e in list(b.elems):
+                for x in f.own_nodes(e):
+                    t = None
+                    k = x.get("k")
+                    if k == "Bin" and x["op"] in ASSIGN_OPS:
+                        t = sk(x["a"][0])
+                    elif k == "Un" and x["op"] in ("post++", "post--", "pre++", "pre--", "&"):
+                        t = sk(x["a"][0])
+                    if t is None or t.get("k") != "Ref" or t["ref"]["id"] != vid:
+                        continue
+                    if k == "Un" and x["op"] == "&":
+                        return []
+                    if bid not in body:
+                        continue
+                    if k == "Un" and x["op"] in ("post++", "pre++"):
+                        step = 1
+                    elif k == "Bin" and x["op"] == "+=" and (cval(sk(x["a"][1])) or 0) > 0:
+                        step = cval(sk(x["a"][1]))
+                    else:
+                        return []
+                    g = math.gcd(g, step)
+        if g == 0:
+            return []
+        c0 = None
+        for p in hb.preds:
+            if p in body:
+                continue
+            last = None
+            for e in f.blocks[p].elems:
+                for x in f.own_nodes(e):
+                    if x.get("k") == "Bin" and x["op"] in ASSIGN_OPS and sk(x["a"][0]).get("k") == "Ref" and sk(x["a"][0])["ref"]["id"] == vid:
+                        last = cval(sk(x["a"][1])) if x["op"] == "=" else None
+                    elif x.get("k") == "Un" and x["op"] in ("post++", "post--", "pre++", "pre--") and sk(x["a"][0]).get("k") == "Ref" \
+                            and sk(x["a"][0])["ref"]["id"] == vid:
+                        last = None
+                    elif x.get("k") == "Decl":
+                        for d_ in x["decls"]:
+                            if d_["ref"]["id"] == vid:
+                                last = cval(sk(d_["init"])) if d_.get("init") is not None else None
+            if last is None or (c0 is not None and last != c0):
+                return []
+            c0 = last
+        if c0 is None:
+            return []
+        top = lim - 1 if c["op"] == "<" else lim
+        if top < c0:
+            return []
+        mx = c0 + ((top - c0) // g) * g
+        memo[hb.id] = [Fact(">=", v, mkint(c0)), Fact("<=", v, mkint(mx))]
+        return memo[hb.id]
+
     def _cond_joins(self):
         """Blocks in which a conditional expression other than a MIN is evaluated: the two ways of getting there are
         kept apart until the value has been taken."""
@@ -1191,6 +1270,8 @@ class Analysis:
                 if s is None:
                     continue
                 ef = self.edge_facts(b, si)
+                if si == 0 and bid in heads:
+                    ef = list(ef) + self._counting_loop_facts(b)
                 su = self.unsigned_compare(b, si)
                 eds = set()
                 for d in out:
